@@ -62,11 +62,11 @@ theorem post_close_api (s : S) (hc : s.c = .chk) (hd : s.doneClosed = true) :
 
 theorem post_close_return_values :
     (SkeletonTie.expectedOf "inotify.AddWith").map (·.take 4) =
-      some [⟨"call", "isClosed", [], []⟩, ⟨"ifBegin", "w.isClosed()", [], []⟩, ⟨"ret", "ErrClosed", [], []⟩, ⟨"ifEnd", "", [], []⟩] ∧
+      some [⟨"call", "isClosed", [], []⟩, ⟨"ifBegin", "%1.isClosed()", [], []⟩, ⟨"ret", "ErrClosed", [], []⟩, ⟨"ifEnd", "", [], []⟩] ∧
     (SkeletonTie.expectedOf "inotify.Remove").map (·.take 4) =
-      some [⟨"call", "isClosed", [], []⟩, ⟨"ifBegin", "w.isClosed()", [], []⟩, ⟨"ret", "nil", [], []⟩, ⟨"ifEnd", "", [], []⟩] ∧
+      some [⟨"call", "isClosed", [], []⟩, ⟨"ifBegin", "%1.isClosed()", [], []⟩, ⟨"ret", "nil", [], []⟩, ⟨"ifEnd", "", [], []⟩] ∧
     (SkeletonTie.expectedOf "inotify.WatchList").map (·.take 4) =
-      some [⟨"call", "isClosed", [], []⟩, ⟨"ifBegin", "w.isClosed()", [], []⟩, ⟨"ret", "nil", [], []⟩, ⟨"ifEnd", "", [], []⟩] := by
+      some [⟨"call", "isClosed", [], []⟩, ⟨"ifBegin", "%1.isClosed()", [], []⟩, ⟨"ret", "nil", [], []⟩, ⟨"ifEnd", "", [], []⟩] := by
   decide +kernel
 
 end C06
